@@ -1081,7 +1081,13 @@ func (m *monitors) onHTTP(h *httpReq) {
 		if name != h.conn {
 			continue
 		}
-		got := h.rec.Header()
+		// header names are compared ignoring case: a key that is not in canonical form in the
+		// response map is written to the wire as it is
+		got := map[string][]string{}
+		for k, v := range h.rec.Header() {
+			ck := http.CanonicalHeaderKey(k)
+			got[ck] = append(got[ck], v...)
+		}
 		var cookies []string
 		for _, mh := range m.httpHdr[real] {
 			canon := http.CanonicalHeaderKey(mh.name)
@@ -1104,6 +1110,24 @@ func (m *monitors) onHTTP(h *httpReq) {
 		}
 		if len(cookies) > 0 && strings.Join(got["Set-Cookie"], ",") != strings.Join(cookies, ",") {
 			m.w.addViolation("C17", "set-cookie-not-accumulated", fmt.Sprintf("HTTP response %s has Set-Cookie %q, the services sent %q", h.name, got["Set-Cookie"], cookies))
+		}
+		// exactly one Content-Type / Access-Control-Allow-Origin value reaches the client
+		for _, k := range []string{"Content-Type", "Access-Control-Allow-Origin"} {
+			if len(got[k]) > 1 {
+				m.w.addViolation("C17", "protected-header-replaced", fmt.Sprintf("HTTP response %s carries %d values of %s: %q", h.name, len(got[k]), k, got[k]))
+			}
+		}
+	}
+	// C04: an HTTP GET hands out resource data only under a get grant for that connection
+	if h.rid != "" && h.rec.Code == 200 && strings.TrimSpace(h.rec.Body.String()) != "" {
+		for real, name := range m.w.cidName {
+			if name != h.conn {
+				continue
+			}
+			g := m.grants[real+" "+h.rid]
+			if g == nil || !g.known || !g.canGet() {
+				m.w.addViolation("C04", "http-data-without-grant", fmt.Sprintf("HTTP GET %s (%s) answered 200 with the resource although no access answer granted get", h.name, h.rid))
+			}
 		}
 	}
 	body := strings.TrimSpace(h.rec.Body.String())
